@@ -26,6 +26,7 @@ EXPLANATION = (
     " Second session: reader-complete - every iteration of P_DATA_TF's item loops hands on the PDV item it framed (a zero-length last fragment keeps its 'last' bit)."
     ' Fourth session: encode_msg and _generate_pdv_fragments are evaluated (generators, file stand-in) on sizes around multiples of the payload on the command / memory / file paths; the path rules step aside on spellings they do not recognise; (message-reset) accumulators of the provider are reset with the message; (file-offset) split_dataset returns the position the File Meta parser stopped at.'
     ' Fifth round: encode_msg is evaluated for flat data sets whose fragments are all equal (a generator that deduplicates or caches would be visible), and for an empty file; the path rules step aside (defer to the evaluation) when the generator delegates with `yield from`; the per-message reset may live in a helper method.'
+    ' Sixth round: (message-reset) the reassembly state is written only by DIMSEServiceProvider.'
 )
 
 FQ = "dimse_messages.DIMSEMessage"
